@@ -34,6 +34,9 @@ type COp struct {
 	Kind string `json:"k"`           // q | partial | idle | close | reset
 	N    int    `json:"n,omitempty"` // partial: octets sent; idle: ms
 	H    HPlan  `json:"h,omitempty"`
+	// Leave: q only - the client does not wait for the reply but closes ("close") or
+	// resets ("reset") its end as soon as the query is written: the handler's reply meets a dead connection
+	Leave string `json:"leave,omitempty"`
 }
 
 type Client struct {
@@ -107,6 +110,9 @@ func Gen(seed uint64, tier string) any {
 				if core.Chance(r, 12) {
 					op.H.End = core.Pick(r, "close", "hijack", "keep")
 				}
+				if core.Chance(r, 8) {
+					op.Leave = core.Pick(r, "close", "reset", "reset")
+				}
 			case x < 80:
 				op.Kind, op.N = "partial", r.IntN(20)
 			case x < 88:
@@ -118,7 +124,7 @@ func Gen(seed uint64, tier string) any {
 			}
 			c.Ops = append(c.Ops, op)
 			total++
-			if op.Kind == "close" || op.Kind == "reset" || op.Kind == "partial" {
+			if op.Kind == "close" || op.Kind == "reset" || op.Kind == "partial" || op.Leave != "" {
 				break
 			}
 		}
@@ -676,6 +682,18 @@ func (c *clientTask) RunEvent(time.Time) {
 			out := ""
 			if err := co.WriteMsg(m); err != nil {
 				out = "err:write:" + err.Error()
+			} else if op.Leave != "" {
+				out = "left"
+				k.Lock()
+				x.cliClosed[c.ci] = k.Seq
+				k.BumpLocked("fault.client_left_before_reply")
+				k.Unlock()
+				if op.Leave == "reset" && sconn != nil {
+					sconn.Reset()
+				} else {
+					conn.Close()
+				}
+				closed = true
 			} else {
 				for {
 					r, err := co.ReadMsg()
@@ -1045,7 +1063,8 @@ func (x *run) judge(outcome string) {
 		gone, closedBefore := x.cliClosed[st.ci]
 		cliGone := closedBefore && gone < st.writeSeq
 		cliGaveUp := st.cliDone && st.cliEndSeq < st.writeSeq
-		excused := cliGone || cliGaveUp || (ctxExpired && acc.retSeq < st.writeSeq)
+		cliLeft := st.cliOutcome == "left" // never meant to read the reply
+		excused := cliGone || cliGaveUp || cliLeft || (ctxExpired && acc.retSeq < st.writeSeq)
 		if excused {
 			res.Bump("oracle.S2_excused")
 			continue
